@@ -10,7 +10,7 @@ from vlib.scopelog import Structure, by_activity
 
 @st.composite
 def cases(draw, tier):
-    c = draw(scope_programs(tier, fail=2, volatile=3, until=3, late_spawn=3, priv=1))
+    c = draw(scope_programs(tier, fail=2, volatile=3, until=3, late_spawn=3, priv=1, sync=1, near_dates=1))
     if tier == 'thorough' and draw(st.integers(0, 2)) == 0:
         c['faults'] = 'all'
     else:
